@@ -24,7 +24,7 @@ ASSUMPTIONS = [
     "Modbus/TCP has no checksum: a same-length corrupted remainder may legitimately be accepted there (the property "
     "restricts clause (b) to the checksummed framings)",
 ]
-MUST = ["reassembled_while_another_caller_queued", "reassembled_after_corrupt_answer", "reassembled_rtu", "reassembled_tcp", "reassembled_aa55", "partial_branch", "leftover_cleared", "late_second_piece",
+MUST = ["payloads_resembling_frame_headers", "reassembled_while_another_caller_queued", "reassembled_after_corrupt_answer", "reassembled_rtu", "reassembled_tcp", "reassembled_aa55", "partial_branch", "leftover_cleared", "late_second_piece",
         "wrong_second_piece_refused", "foreign_datagram_between_fragments", "both_pieces_delayed", "two_objects_fragmented", "other_timeouts", "aa55_checksum_wraps"]
 EXHAUSTIVE = {"quick": False, "thorough": True}
 EPS = 1e-6
@@ -37,12 +37,22 @@ def aa55_payload(req, n):
     return (b"\xaa\x55" * req["count"])[:2 * req["count"]]
 
 
+def zero_payload(req, n):
+    """all registers zero (an idle inverter at night): every remainder starts with 00 00 .."""
+    return bytes(2 * req["count"])
+
+
+def mbap_payload(req, n):
+    """register contents that look like the start of a Modbus/TCP frame (transaction id, protocol id 0, length, unit, function 3)"""
+    return (bytes.fromhex("0009000000070103") * (req["count"] // 4 + 1))[:2 * req["count"]]
+
+
 class FragPeer(ScriptedPeer):
     """Transmission 1 answered in two scripted pieces; transmission 2 per `second_tx`; later ones validly."""
 
     def __init__(self, sc):
         super().__init__(engine.HOST, sc["framing"], [], sc["T"], after="now",
-                         payload_fn=aa55_payload if sc.get("payload") == "aa55" else default_payload,
+                         payload_fn={"aa55": aa55_payload, "zero": zero_payload, "mbap": mbap_payload}.get(sc.get("payload"), default_payload),
                          aa55_payload=(b"\xaa\x55" * 128)[:sc.get("aa55_len", 40)] if sc.get("payload") == "aa55" else
                          b"\xff" * sc.get("aa55_len", 40) if sc.get("payload") == "ff" else
                          bytes((i * 7 + 1) & 0xFF for i in range(sc.get("aa55_len", 40))))
@@ -340,6 +350,13 @@ def run_shard(spec):
                     sc = scenario(f, spec["ka"], T, 2, count, k, "exact", delay, "now", spec["aa55_len"])
                     sc["payload"] = "aa55"
                     run_case(sc, part)
+                    if f != "aa55":
+                        # ... all-zero registers, and registers that look like the head of a Modbus/TCP frame
+                        for pl_ in ("zero", "mbap"):
+                            sc = scenario(f, spec["ka"], T, 2, count, k, "exact", delay, "now", spec["aa55_len"])
+                            sc["payload"] = pl_
+                            run_case(sc, part)
+                            part.count("payloads_resembling_frame_headers")
             if f != "tcp" and (k in (HEADER[f], HEADER[f] + 1, L - 1) or k % 7 == 0):
                 # the fragmented answer belongs to the RETRANSMISSION that follows a corrupted answer delivered at T/2
                 for delay in (0.3, 0.7, 0.95):
